@@ -24,7 +24,7 @@ def sh(cmd, cwd=None, env=None, timeout=3600):
 def suite(cwd):
     base = json.load(open('/root/.vp/BASELINE.json'))
     want = set(base['stable_pass'])
-    path = '/tmp/mut/junit.xml'
+    path = '/tmp/mut/junit_%d.xml' % os.getpid()
     env = dict(os.environ)
     env.pop('SISMIC_VERIF', None)
     env['PYTHONPATH'] = cwd
@@ -50,6 +50,13 @@ def main():
     notes = os.path.join(src, 'notes.txt')
     meta['needs'] = open(notes).read().strip() if os.path.exists(notes) else ''
     # ---- confirmation in a scratch worktree
+    SCRATCH = '/tmp/mut/verify_' + sid
+    prev = os.path.join(VERIF, 'seeded', sid, 'meta.json')
+    recheck = os.environ.get('SEED_RECHECK') and os.path.exists(prev) and json.load(open(prev)).get('kept')
+    if recheck:         # already confirmed: only re-run the checks
+        old = json.load(open(prev))
+        meta['applies'], meta['confirmed'], meta['kept'] = old['applies'], old['confirmed'], True
+        return run_checks(meta, True, patch, demo, notes, src, sid, checks)
     if os.path.exists(SCRATCH):
         sh(['git', '-C', '/repo', 'worktree', 'remove', '--force', SCRATCH])
     sh(['git', '-C', '/repo', 'worktree', 'add', '-q', '--detach', SCRATCH, 'HEAD'])
@@ -68,6 +75,10 @@ def main():
     meta['kept'] = ok
     print('confirm %s: applies=%s demo %d -> %d, broken stable tests: %d  => %s' % (
         sid, rca == 0, rc0, rc1, len(missing), 'KEPT' if ok else 'REJECTED'))
+    return run_checks(meta, ok, patch, demo, notes, src, sid, checks)
+
+
+def run_checks(meta, ok, patch, demo, notes, src, sid, checks):
     # ---- run the checks against it
     meta['checks'] = {}
     scratch_run = os.environ.get('SEED_SCRATCH')
